@@ -55,17 +55,20 @@ PROPS = {
     "C01": dict(
         rule=HIST_RULE + "; after every block Stump, Pollard and full MapPollard (TotalRows 0,1,3,5,31,50,63) report roots and "
              "leaf count, judged against the reference forest (roots of the compressed slot segments)",
-        strength="P: batching/leaf-count theorems on the reference; V: Stump/Pollard/MapPollard = reference on every block",
+        strength="P: batching/leaf-count theorems on the reference; Stump.add mirror = reference for every state and batch (stump_add_refines); mirror of Stump.Update driven by canonical proofs = reference over EVERY history of valid blocks (C01_stump_history, <= 2^63 leaves, no axioms); V: Stump/Pollard/MapPollard = reference on every block, mirror = code",
         level_text="Theorems about the reference forest (batching independence, leaf count) plus a correspondence run in which "
                    "an oracle extracted from the Coq reference judges the roots all three implementations report after every block "
-                   "of random histories. The refinement of the Go algorithms to the reference is validated by that run, not yet proved.",
+                   "of random histories. For the roots-only verifier the refinement is proved: the Gallina mirror of Stump.Update (repaired code) "
+                   "computes the reference roots and leaf count after every block of every valid history (C01_stump_history); the mirror "
+                   "is compared with the code on the same calls. For Pollard and MapPollard the refinement of the mutators is validated "
+                   "by the correspondence run, not proved.",
         technique="Coq reference model + extracted-oracle correspondence over random block histories",
     ),
     "C02": dict(
         rule=HIST_RULE + "; before every block Pollard and MapPollard prove the block's deletions and 3 random subsets in random "
              "order; the proofs are compared with the reference's canonical proof; the canonical proof is given to Verify, "
              "Pollard.Verify and MapPollard.Verify (must accept, returned root indexes compared) and to the Verify mirror",
-        strength="P: canonical order; V: Prove = canonical proof, verifiers accept, mirror(Verify) = Verify",
+        strength="P: canonical order; every list of live leaves has a canonical proof (C02_live_sets_provable); the Verify mirror ACCEPTS the canonical proof of any distinct live leaves of any forest <= 2^63 leaves and returns the expected root indexes (C02_canonical_proof_verifies, _root_indexes); MapPollard.Prove mirror = canonical proof (C10 map_prove_canonical); V: Prove = canonical proof, verifiers accept, mirror(Verify) = Verify",
         level_text="Canonical proofs are defined on the Coq reference (siblings of targets-and-ancestors that are not themselves in that "
                    "set, ascending); the extracted oracle checks byte-for-byte that every prover returns them and that every verifier "
                    "accepts them, and the Gallina mirror of Verify/calculateHashes is compared with the code on the same calls.",
@@ -107,9 +110,11 @@ PROPS = {
              "fresh copies of Stump, Pollard and MapPollard (TotalRows 0,3,63); (b) histories in which every block is applied in a "
              "non-canonical encoding: targets and hashes jointly permuted, 0-3 junk hashes appended; roots compared with the "
              "reference after deleting exactly the leaves at the claimed positions",
-        strength="refuted(pinned) P; V: accepted encodings applied identically (oracle)",
+        strength="refuted(pinned) P; P: mirror of repaired Stump.Update given the canonical proof = reference block application, for every forest/block and over every valid history (C05_stump_applies_block_like_reference, _history); V: accepted (incl. non-canonical) encodings applied identically by all implementations (oracle)",
         level_text="A Coq witness shows that at the pinned commit an accepted proof made the stump delete another leaf than the forests "
-                   "(defect D4, repaired). On the repaired code every accepted non-canonical encoding is applied to all implementations "
+                   "(defect D4, repaired). For the repaired code it is a theorem that the mirror of Stump.Update, given the canonical proof "
+                   "of distinct live leaves, ends with exactly the reference roots and leaf count of the block (and so over whole "
+                   "histories). On the repaired code every accepted non-canonical encoding is applied to all implementations "
                    "and judged against the reference forest by the extracted oracle; the Verify mirror is compared on every call.",
         technique="Coq mirror + refutation witness + extracted-oracle correspondence on non-canonical encodings",
         timeout=3000,
@@ -129,7 +134,7 @@ PROPS = {
         rule=HIST_RULE + "; a light client (Stump + Proof + hashes) is updated with Proof.Update from block data and UpdateData only; "
              "remember pattern per history in {none, all, last only, random}; after every block the oracle checks hashes = expected "
              "set ordered by position, targets = true positions, proof = canonical hashes, and Verify accepts",
-        strength="P: set algebra of the cached leaves (abstract); V: Proof.Update output = canonical cached proof of that set",
+        strength="P: set algebra of the cached leaves (abstract); the expected cached proof of any live set exists, is the canonical proof of its leaves and is accepted by the Verify mirror (C07_expected_cached_is_canonical/_exists/_verifies, <= 2^63 leaves); V: Proof.Update output = that expected cached proof, for two clients sharing block data",
         level_text="The leaf set a client must hold after a block is a Coq theorem on the abstract model; the canonical cached proof of "
                    "that set is computed by the extracted reference and compared with what Proof.Update produced, after every block.",
         technique="Coq abstract model + extracted-oracle correspondence (light client along histories)",
@@ -137,7 +142,7 @@ PROPS = {
     "C08": dict(
         rule=HIST_RULE + "; as C07, then Proof.Undo newest-first to depth k (all k sampled), canonical cached proof in the pre-block "
              "state checked after every undo (and Verify against the previous stump), followed by further updates on another branch",
-        strength="P: which leaves remain after undo (abstract); V: Proof.Undo output = canonical cached proof of that set in the previous state",
+        strength="P: which leaves remain after undo (abstract); the expected cached proof in the previous state exists, is canonical and verifies (C08_expected_cached_*); V: Proof.Undo output = that expected cached proof in the previous state, at every depth",
         level_text="Which leaves a cached proof keeps through undo is a Coq theorem on the abstract model (no added leaf, nothing invented, "
                    "nothing lost except what the block deleted); the extracted oracle checks that Proof.Undo yields exactly the canonical "
                    "proof of that set in the previous state, at every depth.",
@@ -250,6 +255,6 @@ PROPS = {
 }
 
 # hooks
-HOOK_COMMITS = ["1f8cf1e"]
+HOOK_COMMITS = ["1f8cf1e", "3a2bcc9"]
 NOT_YET = {}
 PROPS = {k: v for k, v in PROPS.items() if not k.endswith("_pending")}
